@@ -19,6 +19,7 @@ import (
 	"os"
 	"os/signal"
 	"path/filepath"
+	"runtime"
 	"sort"
 	"sync/atomic"
 	"syscall"
@@ -62,6 +63,12 @@ type Script struct {
 	MBS   int    `json:"mbs"`  // maxBlockSize
 	Steps []Step `json:"steps"`
 	Dir   string `json:"dir,omitempty"` // case directory (child mode)
+	// Inject: syscall name (pwrite64 | fsync | ftruncate) -> ordinal N: strace makes the N-th
+	// such call of the child's workload thread fail with EIO (strace -e inject=...:when=N).
+	// The child locks its workload goroutine to the main thread, so the ordinal counts exactly
+	// the calls the workload makes (in-place header rewrites / fsyncs / truncations of the
+	// .hyd file; nothing else in the child uses these calls).
+	Inject map[string]int `json:"inject,omitempty"`
 }
 
 func (s *Script) NLen() int { return len(s.Name) }
@@ -244,6 +251,7 @@ func RunInProc(dir string, s *Script) ([]int64, []StepResult) {
 // ChildMain runs the script stored in file and exits. The strace log of this process is
 // split per API call by the "MARK i" lines written to /dev/null.
 func ChildMain(file string) {
+	runtime.LockOSThread() // every syscall of the workload is made by the main thread (see Script.Inject)
 	SilenceLogs()
 	signal.Ignore(syscall.SIGXFSZ)
 	raw, err := os.ReadFile(file)
